@@ -1450,6 +1450,7 @@ def nlsys(updfcn, outfcn=None, **kwargs):
         kwargs['inputs'] = kwargs.get('inputs', sys_ss.input_labels)
         kwargs['outputs'] = kwargs.get('outputs', sys_ss.output_labels)
         kwargs['states'] = kwargs.get('states', sys_ss.state_labels)
+        kwargs['dt'] = kwargs.get('dt', sys_ss.dt)
         kwargs['name'] = kwargs.get('name', _extended_system_name(
             sys_ss.name, prefix_suffix_name='converted'))
 
